@@ -27,6 +27,7 @@ import (
 	"encoding/hex"
 	"encoding/json"
 	"errors"
+	"math"
 	"net"
 	"strconv"
 )
@@ -181,9 +182,9 @@ func (m *Message) writeValue(b *bytes.Buffer, i, j int) error {
 	case int64:
 		b.WriteString(strconv.FormatInt(m.DataSets[i][j].Value.(int64), 10))
 	case float32:
-		b.WriteString(strconv.FormatFloat(float64(m.DataSets[i][j].Value.(float32)), 'E', -1, 32))
+		writeFloat(b, float64(m.DataSets[i][j].Value.(float32)), 32)
 	case float64:
-		b.WriteString(strconv.FormatFloat(m.DataSets[i][j].Value.(float64), 'E', -1, 64))
+		writeFloat(b, m.DataSets[i][j].Value.(float64), 64)
 	case bool:
 		b.WriteString(strconv.FormatBool(m.DataSets[i][j].Value.(bool)))
 	case string:
@@ -210,4 +211,16 @@ func (m *Message) writeValue(b *bytes.Buffer, i, j int) error {
 	}
 
 	return nil
+}
+
+// writeFloat writes a JSON number; NaN and the infinities have no JSON
+// number form and are written as strings
+func writeFloat(b *bytes.Buffer, f float64, bitSize int) {
+	if math.IsNaN(f) || math.IsInf(f, 0) {
+		b.WriteByte('"')
+		b.WriteString(strconv.FormatFloat(f, 'E', -1, bitSize))
+		b.WriteByte('"')
+		return
+	}
+	b.WriteString(strconv.FormatFloat(f, 'E', -1, bitSize))
 }
